@@ -89,6 +89,43 @@ pub fn batch_cases(seed: u64, n: usize) -> Vec<Case> {
         if c.bytes.len() > 8000 {
             c.bytes.truncate(8000);
         }
+        if i % 16 == 12 || i == 4 {
+            // inputs that begin with a Unicode signature of *any* scheme (also those the library has no decoder for) or
+            // with one signature followed by bytes that make it the beginning of a longer one: which signature an
+            // input "has" must be a function of its bytes
+            let sigs: [&[u8]; 12] = [
+                b"\xff\xfe\x00\x00", b"\x00\x00\xfe\xff", b"\xff\xfe", b"\xfe\xff", b"\xef\xbb\xbf", b"\x84\x31\x95\x33", b"\x2b\x2f\x76\x38",
+                b"\x2b\x2f\x76\x2f", b"\xf7\x64\x4c", b"\x0e\xfe\xff", b"\xfb\xee\x28", b"\xdd\x73\x66\x73",
+            ];
+            let k = (i / 16 + (seed as usize)) % sigs.len();
+            let sig = if i == 4 { sigs[0] } else { sigs[k] };
+            let (_, t) = TEXTS[(i / 16) % 6];
+            let short: String = t.chars().take(40).collect();
+            let mut bytes = sig.to_vec();
+            match sig.len() {
+                4 if sig[0] == 0xff || sig[0] == 0x00 => {
+                    // UTF-32 text behind a UTF-32 signature
+                    for ch in short.chars() {
+                        let u = ch as u32;
+                        bytes.extend(if sig[0] == 0xff { u.to_le_bytes() } else { u.to_be_bytes() });
+                    }
+                }
+                2 => {
+                    for u in short.encode_utf16() {
+                        bytes.extend(if sig[0] == 0xff { u.to_le_bytes() } else { u.to_be_bytes() });
+                    }
+                    if (i / 16) % 2 == 1 {
+                        // the text itself starts with U+0000
+                        bytes.splice(2..2, [0u8, 0u8]);
+                    }
+                }
+                _ => bytes.extend_from_slice(short.as_bytes()),
+            }
+            c.bytes = bytes;
+            c.sett = Sett::default();
+            c.sett.fb = (i / 16) % 3 != 1;
+            c.tag = "foreign-signature".into();
+        }
         v.push(c);
         if i % 5 == 4 {
             // the same content under one changed setting: another launch may meet them in another order
